@@ -40,11 +40,16 @@ Definition bit (b : bool) : ascii := if b then "1"%char else "0"%char.
 Definition show_hyps (d0 : t2d) : str :=
   let d := set_sections d0 (update_sections d0) in
   let ks := map l2s (sections d) in
+  (* the value conditions imply the computed ones (IdemEx.idem_hyps_strict_weaken): the costly test runs once *)
+  let st := idem_hyps_strict d ks in
+  let h := if st then true else idem_hyps d ks in
+  let h1 := if h then true else idem_hyps1 d ks in
+  let ok := if h1 then true else hyps_ok d ks in
   [bit (forallb (fun k => existsb (String.eqb k) covered) ks);
    bit (match write_lines d with Ok _ => true | Raise _ => false end);
    bit (match xprec d with [] => true | _ => false end);
-   bit (is_end (end_keyword d)); bit (title_ok d); bit (chain_ok d ks (start_state d)); bit (hyps_ok d ks);
-   bit (forallb (fun k => existsb (String.eqb k) idem_covered) ks); bit (idem_hyps1 d ks); bit (idem_hyps d ks)].
+   bit (is_end (end_keyword d)); bit (title_ok d); bit (chain_ok d ks (start_state d)); bit ok;
+   bit (forallb (fun k => existsb (String.eqb k) idem_covered) ks); bit h1; bit h; bit st].
 Definition rstrip_sp (s : str) : str := rstrip_by (fun c => ceqb c " "%char) s.
 Definition strip_line (l : str) : str :=
   match rev l with c :: r => if ceqb c nl then rstrip_sp (rev r) +++ [nl] else rstrip_sp l | [] => [] end.
